@@ -184,6 +184,17 @@ def back(s):
 def sconcat(ex, parts):
     if all(isinstance(p, str) for p in parts):
         return "".join(parts)
+    from .libos import PathVal, path_concat
+    if any(isinstance(p, PathVal) for p in parts):
+        # a path text between literals (f"{path}_ck", "{}_ck".format(path)): the same value as path + "_ck"
+        if not all(isinstance(p, (str, PathVal)) for p in parts):
+            raise Unsupported("path text formatted together with other symbolic text")
+        r = None
+        for p in parts:
+            if p == "":
+                continue
+            r = p if r is None else path_concat(ex, r, p)
+        return "" if r is None else r
     isb = any(isinstance(p, SStr) and p.isbytes for p in parts)
     return back(SStr([norm(p) for p in parts], isbytes=isb))
 
@@ -206,6 +217,11 @@ def fmt_value(ex, val, spec, conversion=-1):
         if isinstance(val, str):
             return repr(val)
         raise Unsupported("!r conversion of a symbolic value")
+    from .libos import PathVal
+    if isinstance(val, PathVal):
+        if spec:
+            raise Unsupported("format spec on a path text")
+        return val          # a path IS its text
     if isinstance(val, bool):
         return format(val, spec or "")
     if isinstance(val, (int, float, str)) and not isinstance(val, bool):
